@@ -107,7 +107,11 @@ def gen_matrix(rng, crit_pool):
     if style == "mixed":
         mtx[0][0] = -abs(mtx[0][0])
     if style == "zeros":
-        mtx[rng.randrange(n)][rng.randrange(m)] = 0.0
+        # a zero cost / delay: mostly in a criterion that is to be minimised (1/0 under InvertMinimize)
+        j0 = rng.randrange(m)
+        if rng.random() < 0.6:
+            objs[j0] = -1
+        mtx[rng.randrange(n)][j0] = 0.0
     if style == "allmin":
         objs = [-1] * m
     nan = []
@@ -141,6 +145,9 @@ def gen_spec(rng, quals):
         sim = [q for q in quals if q.endswith(".SIMUS")]
         if sim:
             return {"kind": "class", "qual": sim[0]}
+    if t < 0.10:
+        # the objective inverters (their output depends on nothing but the matrix, zeros included)
+        return {"kind": "tf", "cfg": T.config(rng, rng.choice(["InvertMinimize", "NegateMinimize"]))}
     if t < 0.45:
         return {"kind": "class", "qual": rng.choice(quals)}
     if t < 0.75:
